@@ -1,6 +1,7 @@
 /- C04 driver. streams `codeops`, `tailrec`: line = instruction list `op|tgt|arg …` -> the pass output
    in the same syntax, or `PANIC` -/
 import Gojq.Model.Optimize
+import Gojq.Model.OptVM
 import Driver.Common
 open Gojq.Opt
 
@@ -22,5 +23,13 @@ def runPass (f : Code → Option Code) (line : String) : String :=
     | none => "PANIC"
     | some out => " ".intercalate (out.toList.map showInstr)
 
+/-- stream `wf`: the static hypothesis of `optimizeCodeOps_preserves_outputs` on a dumped code
+    (`wfCheckView`, proved equal to `wfCheck` through `view`) -/
+def runWf (line : String) : String :=
+  let toks := (line.splitOn " ").filter (· ≠ "")
+  match toks.mapM parseInstr with
+  | none => "?parse"
+  | some is => if Gojq.OptVM.wfCheckView is.toArray then "wf" else "not-wf"
+
 def main (args : List String) : IO UInt32 :=
-  Driver.main [("codeops", runPass optimizeCodeOps), ("tailrec", runPass optimizeTailRec)] args
+  Driver.main [("codeops", runPass optimizeCodeOps), ("tailrec", runPass optimizeTailRec), ("wf", runWf)] args
